@@ -94,8 +94,29 @@ const miniFailKinds = `{
 const miniFailKindsInput = "id,f,d,s\n1,1.5,2020-01-01,a\n2,NaN,2020-01-02,b\n3,2.5,notadate,c\n4,-Inf,2020-01-04,d\n5,3.5,2020-01-05,boom\n" +
 	"6,Infinity,2020-01-06,f\n7,x,2020-01-07,g\n8,1e999,2020-01-08,h\n9,4.5,2020-01-09,i\n"
 
+// every date-time function, with and without explicit zones: the result may depend on the arguments only (not on the
+// process's local zone)
+const miniDateTime = `{
+ "parser_settings": {"version": "omni.2.1", "file_format_type": "csv"},
+ "file_declaration": {"delimiter": ",", "header_row_index": 1, "data_row_index": 2,
+   "columns": [{"name": "id"}, {"name": "dt"}, {"name": "ep"}]},
+ "transform_declarations": {"FINAL_OUTPUT": {"object": {
+   "id": {"xpath": "id"},
+   "r1": {"custom_func": {"name": "dateTimeToRFC3339", "args": [{"xpath": "dt"}, {"const": ""}, {"const": ""}]}},
+   "r2": {"custom_func": {"name": "dateTimeToRFC3339", "args": [{"xpath": "dt"}, {"const": "America/New_York"}, {"const": "Asia/Tokyo"}]}},
+   "r3": {"custom_func": {"name": "dateTimeToRFC3339", "args": [{"xpath": "dt"}, {"const": ""}, {"const": "Europe/Berlin"}]}},
+   "l1": {"custom_func": {"name": "dateTimeLayoutToRFC3339", "args": [{"xpath": "dt"}, {"const": "2006-01-02T15:04:05"}, {"const": "false"}, {"const": ""}, {"const": ""}]}},
+   "e1": {"custom_func": {"name": "dateTimeToEpoch", "args": [{"xpath": "dt"}, {"const": ""}, {"const": "SECOND"}]}},
+   "e2": {"custom_func": {"name": "dateTimeToEpoch", "args": [{"xpath": "dt"}, {"const": "Australia/Sydney"}, {"const": "MILLISECOND"}]}},
+   "t1": {"custom_func": {"name": "epochToDateTimeRFC3339", "args": [{"xpath": "ep"}, {"const": "SECOND"}]}},
+   "t2": {"custom_func": {"name": "epochToDateTimeRFC3339", "args": [{"xpath": "ep"}, {"const": "MILLISECOND"}]}},
+   "t3": {"custom_func": {"name": "epochToDateTimeRFC3339", "args": [{"xpath": "ep"}, {"const": "SECOND"}, {"const": "America/St_Johns"}]}}}}}
+}`
+const miniDateTimeInput = "id,dt,ep\n1,2021-03-14T03:30:00,0\n2,2020-09-22T12:34:56,1600000000\n3,1969-12-31T23:59:59,-1\n4,2021-11-07T01:30:00,1636263000\n5,bad,12\n6,2024-02-29T00:00:00,x\n"
+
 func miniSamples() []Sample {
 	return []Sample{
+		{"mini/datetime", "csv", []byte(miniDateTime), []byte(miniDateTimeInput)},
 		{"mini/failkinds", "csv", []byte(miniFailKinds), []byte(miniFailKindsInput)},
 		{"mini/csv", "csv", []byte(miniCSV), []byte(miniCSVInput)},
 		{"mini/csv2", "csv2", []byte(miniCSV2), []byte(miniCSV2Input)},
